@@ -464,21 +464,32 @@ def to_request(op, H, side):
             r = {"op": "set_node_attributes" if op["level"] == "node" else "set_edge_attributes", "shape": "dict_of_dict",
                  "values": [[op["id"], [[op["k"], v]]]]}
     elif name == "poke":
-        key = op.get("done")
-        if key is None:
-            r = {"op": "snapshot"}
-        elif op["level"] == "net":
-            r = {"op": "set_net_attr", "k": key, "v": enc_val7_req(H[key])}
-        else:
-            view = H.nodes if op["level"] == "node" else H.edges
-            r = {"op": "set_node_attributes" if op["level"] == "node" else "set_edge_attributes", "shape": "dict_of_dict",
-                 "values": [[op["id"], [[key, enc_val7_req(view[dec_id(op["id"])][key])]]]]}
+        raise AssertionError("pokes are translated by poke_requests")
     else:
         r = MH.to_request(op)
         r.pop("done", None)
     r = dict(r)
     r["side"] = side
     return r
+
+
+def poke_requests(H, before, after, side):
+    """an in-place write below the API has no model call of its own: it is sent as the attribute writes it amounts to.
+    Values may be aliased inside one network (`add_nodes_from(..., **attr)` and `set_*_attributes(const, name)` store the
+    same object under several ids), so every id whose attribute dict changed on this side is re-sent in full."""
+    reqs = []
+    for lvl, field, view in (("node", "nattr", H.nodes), ("edge", "eattr", H.edges)):
+        b = {repr(k): v for k, v in before[field]}
+        ch = [k for k, v in after[field] if b.get(repr(k)) != v and v != "$missing"]
+        if ch:
+            reqs.append({"op": f"set_{lvl}_attributes", "shape": "dict_of_dict", "side": side,
+                         "values": [[k, [[str(a), enc_val7_req(v)] for a, v in view[dec_id(k)].items()]] for k in ch]})
+    if before["net"] != after["net"]:
+        b = dict(map(tuple, map(lambda p: (p[0], json.dumps(p[1])), before["net"])))
+        for k, v in after["net"]:
+            if b.get(k) != json.dumps(v):
+                reqs.append({"op": "set_net_attr", "k": k, "v": enc_val7_req(H[k]), "side": side})
+    return reqs or [{"op": "snapshot", "side": side}]
 
 
 # ----------------------------------------------------------------------------- generation
@@ -803,6 +814,7 @@ def _evaluate(case, want_model, stats, acc):
         side = ed.pop("side")
         X, Y = sides[side], sides["b" if side == "a" else "a"]
         before = snapshot(Y, cls)
+        mine = snapshot(X, cls) if model and ed["op"] == "poke" else None
         out = apply(cls, X, ed)
         after = snapshot(Y, cls)
         if stats is not None:
@@ -814,7 +826,12 @@ def _evaluate(case, want_model, stats, acc):
             what = ed["op"] + (":" + ed.get("act", "") if ed["op"] == "poke" else "")
             fails.append((site, "edit-visible-in-other-network",
                           f"{what} on the {'source' if side == 'a' else 'clone'} changed {diff} of the other side"))
-        if model:
+        if model and ed["op"] == "poke":
+            now = snapshot(X, cls, "ok")
+            prs = poke_requests(X, mine, now, side)
+            reqs += prs
+            exps += [None] * (len(prs) - 1) + [now]
+        elif model:
             reqs.append(to_request(ed, X, side)); exps.append(snapshot(X, cls, out))
     if model:
         for sd in ("a", "b"):
